@@ -84,6 +84,16 @@ func (c corridor) cornerEndpoint() bool {
 	return false
 }
 
+// productionLike: the start point lies on the TOP side of the first rectangle and the end point on the BOTTOM side of the
+// last one, both strictly between the corners — where the Splines router puts them (bottom-centre of the source node,
+// top-centre of the target node). These positions are degenerate in the sense of degenerate() (collinear with the two
+// corners of their side) but geom.Shortest handles all of them correctly on the pinned tree, so they are NOT part of the
+// known-finding class: a failure there is reported.
+func (c corridor) productionLike() bool {
+	k := len(c.L) - 1
+	return c.s.Y == c.Y[0] && c.s.X > c.L[0] && c.s.X < c.R[0] && c.t.Y == c.Y[k+1] && c.t.X > c.L[k] && c.t.X < c.R[k]
+}
+
 // boundaryEndpoint: the start point lies on a side of the first rectangle or the end point on a side of the last one.
 func (c corridor) boundaryEndpoint() bool {
 	k := len(c.L) - 1
@@ -259,6 +269,45 @@ func corridorSpaceD(kmax int, xs []int, hs []int, general, dense bool) func(emit
 							L[i], R[i], H[i] = xs[a], xs[b], h
 							rec(i + 1)
 						}
+					}
+				}
+			}
+			rec(0)
+		}
+	}
+}
+
+// productionSpace: every well-formed stack of 1..k rectangles x every start position on the top side of the first and
+// every end position on the bottom side of the last rectangle on a grid of `step` units, corners excluded — including
+// start and end vertically aligned with each other and with corridor vertices.
+func productionSpace(kmax int, xs []int, step int) func(emit func(Input)) {
+	return func(emit func(Input)) {
+		for k := 1; k <= kmax; k++ {
+			L, R := make([]int, k), make([]int, k)
+			var rec func(i int)
+			rec = func(i int) {
+				if i == k {
+					for sx := L[0] + step; sx < R[0]; sx += step {
+						for ex := L[k-1] + step; ex < R[k-1]; ex += step {
+							e := []int{k}
+							for j := 0; j < k; j++ {
+								e = append(e, L[j], R[j], 10)
+							}
+							e = append(e, sx*10, 0, ex*10, k*100)
+							emit(Input{E: e})
+						}
+					}
+					return
+				}
+				for a := 0; a < len(xs); a++ {
+					for b := a + 1; b < len(xs); b++ {
+						if i > 0 {
+							if lo, hi := max(L[i-1], xs[a]), min(R[i-1], xs[b]); lo >= hi {
+								continue
+							}
+						}
+						L[i], R[i] = xs[a], xs[b]
+						rec(i + 1)
 					}
 				}
 			}
@@ -596,7 +645,8 @@ func init() {
 		if len(in.E) < 8 || len(in.E) != 5+3*in.E[0] {
 			return false
 		}
-		return decodeCorridor(in.E).degenerate()
+		cr := decodeCorridor(in.E)
+		return cr.degenerate() && !cr.productionLike()
 	}
 	grid5 := []int{0, 10, 20, 30, 40}
 	grid6 := []int{0, 10, 20, 30, 40, 50}
@@ -604,6 +654,8 @@ func init() {
 		ps := []*Pass{
 			{Name: "degenerate-k2", Space: corridorSpace(2, []int{0, 10, 20, 30}, []int{10}, false), Eval: evalC19, BudgetS: 3, HeapMB: 48,
 				Bound: "every stack of 1..2 rectangles on a 4-value grid x the 9 x 9 degenerate start/end positions (corners, side midpoints, centres): the known-finding class"},
+			{Name: "production-like-k4", Space: productionSpace(4, grid5, 5), Eval: evalC19, BudgetS: 5, HeapMB: 256,
+				Bound: "every well-formed stack of 1..4 rectangles on the 5-value grid x every start position on the top side of the first and end position on the bottom side of the last rectangle (5-unit grid, corners excluded; vertically aligned pairs included): the positions the Splines router produces"},
 			{Name: "general-k3-dense", Space: corridorSpaceD(3, grid5, []int{10}, true, true), Eval: evalC19, BudgetS: 5, HeapMB: 256,
 				Bound: "every well-formed stack of 1..3 rectangles on the 5-value grid x 15 start x 15 end positions in general position"},
 			{Name: "general-k4", Space: corridorSpace(4, grid5, []int{10}, true), Eval: evalC19, BudgetS: 5, HeapMB: 256,
@@ -622,6 +674,8 @@ func init() {
 		ps := []*Pass{
 			{Name: "roots", Space: polySpace(), Eval: evalC20Roots,
 				Bound: "every cubic with a multiset of 3 real roots from a 9-value dyadic grid, every (real root, complex pair), quadratics, linears, constants x leading coefficients {1,-2,0.5}; vanishing leading coefficient {0,+-0.5e,+-e,+-2e} around the solver's epsilon"},
+			{Name: "fit-production-like-k4", Space: productionSpace(4, grid5, 5), Eval: evalC20Fit, BudgetS: 5, HeapMB: 256,
+				Bound: "every corridor of the C19 production-like space (start on the top side, end on the bottom side, k<=4) whose shortest path has >= 3 points: spline fitted, 401 samples per piece"},
 			{Name: "fit-k4", Space: corridorSpace(4, grid5, []int{10}, true), Eval: evalC20Fit, BudgetS: 5, HeapMB: 256,
 				Bound: "every corridor of the C19 general-position space (k<=4) whose (correct) shortest path has >= 3 points: spline fitted, 401 samples per piece"},
 		}
